@@ -115,9 +115,55 @@ def retry_contract(acc, kind, request, retries, which):
                           'retry_on_%s with retries=%d: %d %s replies then a valid one did not return the valid reply' % (which, retries, j, filler), kind)
 
 
+HEADER = {'tcp': 8, 'rtu': 2, 'ascii': 5, 'binary': 3, 'tls': 1}
+LATENCY_REQS = ['read-registers', 'write-single', 'mask-write', 'diagnostic', 'device-information', 'write-registers']
+
+
+def latency_contract(acc, kind, request, tier):
+    """a healthy transport has latency: the valid reply arrives some time after the request, well inside the timeout, whole or
+    in two pieces (what the client reads first, then the rest a little later in one piece) -- it is returned.  Also when the
+    unit did not answer the transaction before (the client then reads differently)."""
+    hdr = HEADER[clients.FRAMING[kind]]
+    delays = (0.05, 0.5) if tier == 'quick' else (0.03, 0.05, 0.2, 0.5, 1.5, 2.5)
+    gaps = (0.2,) if tier == 'quick' else (0.05, 0.2, 1.0)
+    # a hole in the middle of what the client reads in one go is healthy on a socket (segmentation) but not on a serial line,
+    # where the client takes a pause as the end of the frame: there the second piece starts exactly where the first read ends
+    cuts = (hdr, hdr + 1) if kind in ('tcp', 'rtu-over-tcp') else (hdr,)
+    arrivals = [(d, 0, 0.0) for d in delays] + [(d, k, g) for d in (0.0,) + delays[:1] for k in cuts for g in gaps]
+    for hist in ((), (('read-registers', 'silent'),), ('write-single',)):
+        for roe in (False, True):
+            for arr in arrivals:
+                if kind == 'udp' and arr[1]:
+                    continue            # a datagram arrives whole
+                if kind.startswith('serial') and arr[1] and hist and not isinstance(hist[0], str):
+                    continue            # after an unanswered transaction the serial client reads the whole reply in one go
+                spec = clientsim.Spec(kind, request, retries=1, retry_on_empty=roe, retry_on_invalid=False, backoff=0.05, history=hist,
+                                      peer_menu=['own'], read_menu=['full'], send_menu=['ok'], arrival=arr)
+                try:
+                    recs = clientsim.Sim(choice.Env([]), spec).run()
+                except clients.HorizonHit:
+                    recs = None
+                acc.inc('evaluations')
+                good = False
+                d = None
+                if recs:
+                    main = [r for r in recs if r['role'] == 'main'][0]
+                    d = clientsim.describe(main['result'])
+                    good = main['raised'] is None and d[0] == 'response' and not d[1].startswith('Exception') and len(main['writes']) == 1
+                if not good:
+                    acc.violation('C13/%s/latency/valid-reply-not-returned/%s' % (kind, 'whole' if not arr[1] else 'two-pieces'),
+                                  dict(client=kind, request=request, roe=roe, arrival=list(arr), latency_history=[h if isinstance(h, str) else list(h) for h in hist]),
+                                  'the valid reply arriving after %.2f s (%s) was not returned: %r'
+                                  % (arr[0], 'whole' if not arr[1] else 'first %d bytes, the rest %.2f s later' % (arr[1], arr[2]), d and d[:3]), kind)
+
+
 def shard(args):
     kind, request, tier = args
     acc = Acc()
+    if request == '@latency':
+        for r in LATENCY_REQS:
+            latency_contract(acc, kind, r, tier)
+        return acc
     bound = 2 if tier == 'quick' else 3
     for retries in (0, 1, 2, 3):
         for roe in (False, True):
@@ -146,13 +192,14 @@ def shard(args):
 def run(tier, seed):
     reqs = REQS + ['device-information', 'read-max'] if tier == 'quick' else REQS + ['read-max', 'read-write-registers', 'write-coils', 'write-registers', 'device-information']
     shards = [(k, r, tier) for k in clients.KINDS for r in reqs if tier != 'quick' or (r != 'device-information' or 'rtu' in k) and (r != 'read-max' or k in ('udp', 'tcp'))]
+    shards += [(k, '@latency', tier) for k in clients.KINDS]
     acc = par.run_shards(shard, shards)
     return dict(acc=acc, level=LEVEL,
                 coverage=dict(
                     rule='one case = one complete execution (history of environment choices) of the real client; non-trivial = distinct executions '
                          'with at least one deviation from the healthy run',
                     bounds='all executions with <= %d deviations; retries 0..3 x retry_on_empty x retry_on_invalid x backoff {0.3, 0.05}; 6 client kinds x %d request '
-                           'classes; plus the retry contract scripts (j <= retries empty/foreign replies then a valid one)' % (2 if tier == 'quick' else 3, 4 if tier == 'quick' else 8),
+                           'classes; plus the retry contract scripts (j <= retries empty/foreign replies then a valid one) and the latency contract (valid reply after 0.03..2.5 s, whole or header-then-rest, 6 request classes, after none / an unanswered / an answered transaction)' % (2 if tier == 'quick' else 3, 4 if tier == 'quick' else 8),
                     executions=acc.n.get('executions', 0), choice_points=acc.n.get('choice_points', 0)),
                 assumptions=['virtual clock: every time() call advances 10 ms, sleep(d) advances d; a serial read blocks until its timeout',
                              'horizon 60000 clock calls / 200000 transport operations per execution = "hang"',
@@ -165,6 +212,10 @@ def replay(w):
         vs = [v for v in a2.violations if 'diverged' in v['witness']]
         return bool(vs), '\n'.join(v['msg'] for v in vs) or 'no divergence this time'
     acc = Acc()
+    if 'arrival' in w:
+        latency_contract(acc, w['client'], w['request'], 'thorough')
+        vs = [v for v in acc.violations if v['witness'] == w]
+        return bool(vs), '\n'.join(v['msg'] for v in vs) or 'no violation'
     if 'fillers' in w:
         retry_contract(acc, w['client'], w['request'], w['retries'], w['which'])
         vs = [v for v in acc.violations if v['witness'] == w]
